@@ -180,10 +180,12 @@ def do_detect_copy(sid, props):
     shutil.rmtree(copy, ignore_errors=True)
     os.makedirs(copy)
     # the COMMITTED tree of /repo (its working tree may be patched by a concurrent `detect`)
-    rc, out = sh(f"git -C /repo archive HEAD src Cargo.toml Cargo.lock | tar -x -C {copy}")
-    if rc != 0:
+    rc, out = sh(f"git -C /repo archive HEAD src Cargo.toml | tar -x -C {copy}")
+    if rc != 0 or not os.path.isdir(os.path.join(copy, "src")):
         print(out)
         return 2
+    if os.path.exists("/repo/Cargo.lock"):
+        shutil.copy("/repo/Cargo.lock", os.path.join(copy, "Cargo.lock"))
     sh("git init -q .", cwd=copy)
     rc, out = sh(f"git apply {os.path.join(d, 'patch.diff')}", cwd=copy)
     if rc != 0:
